@@ -1371,6 +1371,81 @@ def directed_forward():
     return out
 
 
+def directed_same_name():
+    """C06 / C17: two DIFFERENT predicates with the same simple name in different scopes (global vs class, class vs class, nested class vs
+    global, smart-type class vs plain class), one temporal and one not (or one Interval, one Impulse), facts of the two in both orders
+    and goals: whether a predicate is an Interval / an Impulse is a property of the predicate, not of its simple name. The temporal
+    atoms must come out well-formed, requests that force an ill-formed atom must be unsolvable, the non temporal ones are untouched.
+    Returns (program, text, expected)."""
+    out = []
+    R = lambda v: num(v, False)
+    I = lambda v: num(v, True)
+    H20 = ('expr', ('eq', var('horizon'), R(20)))
+    cls = lambda n, sup=(), outer=None: dict({'name': n, 'kind': 'class', 'supers': list(sup), 'fields': [], 'ctors': []}, **({'outer': outer} if outer else {}))
+    gbusy = {'name': 'Busy', 'owner': None, 'params': [('job', 'int')], 'supers': ['Interval'], 'body': []}
+    lbusy = {'name': 'Lab:Busy', 'owner': 'Lab', 'params': [('load', 'real')], 'supers': [], 'body': [('expr', ('ge', var('load'), R(0)))]}
+    sbusy = {'name': 'Shop:Busy', 'owner': 'Shop', 'params': [], 'supers': ['Interval'], 'body': []}
+    ibusy = {'name': 'Outer:Inner:Busy', 'owner': 'Outer:Inner', 'params': [('load', 'real')], 'supers': [], 'body': []}
+    gring = {'name': 'Ring', 'owner': None, 'params': [], 'supers': ['Impulse'], 'body': []}
+    lring = {'name': 'Lab:Ring', 'owner': 'Lab', 'params': [], 'supers': ['Interval'], 'body': []}
+    mbusy = {'name': 'Mach:Busy', 'owner': 'Mach', 'params': [], 'supers': [], 'body': []}              # Interval through StateVariable
+    pbusy = {'name': 'Lab:Busy', 'owner': 'Lab', 'params': [], 'supers': ['Impulse'], 'body': []}       # variant of Lab:Busy that is an Impulse
+
+    def disj(a):
+        return ('disj', 'sn_' + a, [[('expr', ('ge', var(a, 'start'), R(12))), ('expr', ('le', var(a, 'end'), R(10)))],
+                                    [('expr', ('ge', var(a, 'start'), R(2))), ('expr', ('le', var(a, 'end'), R(10)))]])
+    cases = []
+    for isfact in (True, False):
+        T = lambda name, args: ('formula', isfact, name, [], 'Busy', args)                    # the temporal (global) one
+        N = lambda name, args: ('formula', True, name, ['lab'], 'Lab:Busy', args)             # the non temporal one (always a fact)
+        lab = [('new', 'Lab', 'lab', [])]
+        for order in (0, 1):
+            def both(t, n):
+                return lab + ([n, t] if order == 0 else [t, n])
+            base = ([cls('Lab')], [gbusy, lbusy])
+            cases.append(base + (both(T('b0', [('job', I(1)), ('start', R(5)), ('end', R(9))]), N('l0', [('load', R(3))])), 'sat'))
+            cases.append(base + (both(T('b0', [('job', I(1)), ('start', R(12)), ('end', R(10))]), N('l0', [('load', R(3))])), 'unsat'))
+            cases.append(base + (both(T('b0', [('job', I(1)), ('start', R(25))]), N('l0', [('load', R(3))])) + [H20], 'unsat'))
+            cases.append(base + (both(T('b0', [('job', I(1))]), N('l0', [('load', R(3))])) + [disj('b0')], 'sat'))
+            cases.append(base + (both(T('b0', [('job', I(2))]), N('l0', [('load', R(1))])) + [('expr', ('le', var('b0', 'duration'), ('neg', R(1))))], 'unsat'))
+            # class vs class
+            cc = ([cls('Lab'), cls('Shop')], [lbusy, sbusy])
+            S = ('formula', isfact, 's0', ['shop'], 'Shop:Busy', [('start', R(12)), ('end', R(10))])
+            S2 = ('formula', isfact, 's0', ['shop'], 'Shop:Busy', [])
+            shop = [('new', 'Shop', 'shop', [])]
+            cases.append(cc + (lab + shop + ([N('l0', [('load', R(3))]), S] if order == 0 else [S, N('l0', [('load', R(3))])]), 'unsat'))
+            cases.append(cc + (lab + shop + ([N('l0', [('load', R(3))]), S2] if order == 0 else [S2, N('l0', [('load', R(3))])]) + [disj('s0')], 'sat'))
+            # nested class vs global
+            nn = ([cls('Outer'), cls('Outer:Inner', (), 'Outer')], [gbusy, ibusy])
+            inn = [('new', 'Outer:Inner', 'in0', [])]
+            NI = ('formula', True, 'l0', ['in0'], 'Outer:Inner:Busy', [('load', R(3))])
+            TI = T('b0', [('job', I(1)), ('start', R(12)), ('end', R(10))])
+            cases.append(nn + (inn + ([NI, TI] if order == 0 else [TI, NI]), 'unsat'))
+            TI2 = T('b0', [('job', I(1))])
+            cases.append(nn + (inn + ([NI, TI2] if order == 0 else [TI2, NI]) + [('expr', ('eq', var('b0', 'start'), R(7)))], 'sat'))
+            # one Impulse (global Ring), one Interval (Lab.Ring)
+            rr = ([cls('Lab')], [gring, lring])
+            GR = ('formula', isfact, 'r0', [], 'Ring', [('at', R(25))])
+            LR = ('formula', isfact, 'r1', ['lab'], 'Lab:Ring', [('start', R(12)), ('end', R(10))])
+            LRok = ('formula', isfact, 'r1', ['lab'], 'Lab:Ring', [('start', R(3)), ('end', R(10))])
+            GRok = ('formula', isfact, 'r0', [], 'Ring', [('at', R(5))])
+            cases.append(rr + (lab + ([GRok, LR] if order == 0 else [LR, GRok]), 'unsat'))
+            cases.append(rr + (lab + ([GR, LRok] if order == 0 else [LRok, GR]) + [H20], 'unsat'))
+            cases.append(rr + (lab + ([GRok, LRok] if order == 0 else [LRok, GRok]) + [H20], 'sat'))
+            # smart-type class vs plain class (the plain one is an Impulse)
+            sp = ([cls('Mach', ['StateVariable']), cls('Lab')], [mbusy, pbusy])
+            mach = [('new', 'Mach', 'mach', [])]
+            MB = ('formula', isfact, 'm0', ['mach'], 'Mach:Busy', [('start', R(3)), ('end', R(10))])
+            PB = ('formula', isfact, 'p0', ['lab'], 'Lab:Busy', [('at', R(25))])
+            PBok = ('formula', isfact, 'p0', ['lab'], 'Lab:Busy', [('at', R(5))])
+            cases.append(sp + (lab + mach + ([MB, PB] if order == 0 else [PB, MB]) + [H20], 'unsat'))
+            cases.append(sp + (lab + mach + ([MB, PBok] if order == 0 else [PBok, MB]) + [H20], 'sat'))
+    for classes, preds, main, exp in cases:
+        prog = {'classes': classes, 'preds': preds, 'main': main}
+        out.append((prog, A.pp_program(prog), exp))
+    return out
+
+
 def directed_temporal():
     """Problems aimed at each conjunct of the temporal rules: on a correct planner they are unsolvable; if one of the
     constraints of Interval / Impulse is lost they become solvable with an ill-formed active atom (which the checker rejects)."""
